@@ -3,59 +3,39 @@
    handler and precompile argument decoding never panic.
 
    Stated over the executable model coq/model/M_Validate.v of the stateless validators (every abstract value of
-   every field, including the nil numbers an absent protobuf field decodes to).  Where the faithful model panics the
-   statement is refuted by a concrete witness (replayed on the real code by harness/c20v, docs/findings/C20-*.md)
-   and the strongest guarded statement is proved instead. *)
+   every field, including the nil numbers an absent protobuf field decodes to), transcribed from the tree in which
+   findings C20-1..C20-6 are repaired.  The refutations that established those findings are kept as clearly labelled
+   HISTORICAL theorems about the pre-fix variants (the C20_prefix theorems). *)
 From Coq Require Import ZArith List Bool String.
-From FxV Require Import gen.Gen_MsgFields model.M_Validate model.M_ValidateFields proofs.P_Validate proofs.P_ValidateGen.
+From FxV Require Import gen.Gen_MsgFields model.M_Validate model.M_ValidateHist model.M_ValidateFields proofs.P_Validate proofs.P_ValidateHist proofs.P_ValidateGen.
 Import ListNotations.
 Open Scope string_scope.
 Open Scope Z_scope.
 
-(* every modelled validator, on every input outside the recorded panic classes, returns ok or an error *)
-Theorem C20_validate_total : forall i, known_panic_input i = false -> validate i <> VPanic.
+(* every modelled validator returns ok or an error on EVERY input a decoder can produce (all nil numbers included).
+   Since the repairs 51457a3 / cac8fd3 / 02a5a38 / edafc05 no fx-core validator is excluded. *)
+Theorem C20_validate_total : forall i, decodable i = true -> validate i <> VPanic.
 Proof. exact validate_total. Qed.
 Print Assumptions C20_validate_total.
 
-(* the unguarded statement is false of the code as it is: absent SlashFraction / OracleSetUpdatePowerChangePercent *)
-Theorem C20_validate_total_Params_refuted :
-  v_Params params_absent_slash = VPanic /\ v_Params params_absent_power_change = VPanic /\
-  v_MsgUpdateParams {| up_authority := BGood 1; up_chain := ChEth; up_params := params_absent_slash |} = VPanic.
-Proof. exact params_refuted. Qed.
-Print Assumptions C20_validate_total_Params_refuted.
+(* the four validators that used to panic, stated outright *)
+Theorem C20_validate_total_repaired :
+  (forall p, v_Params p <> VPanic) /\ (forall m, v_MsgUpdateParams m <> VPanic) /\
+  (forall m, v_MsgBridgeCall m <> VPanic) /\ (forall m, h_MsgConfirm_entry m <> VPanic) /\ (forall c, v_claim c <> VPanic).
+Proof. repeat split; [exact v_Params_total | exact v_MsgUpdateParams_total | exact v_MsgBridgeCall_total | exact confirm_total | exact v_claim_total]. Qed.
+Print Assumptions C20_validate_total_repaired.
 
-(* ... and these are the ONLY inputs on which Params.ValidateBasic panics *)
-Theorem C20_Params_panics_only_on_nil_dec : forall p, v_Params p = VPanic -> params_nil_dec p = true.
-Proof. exact v_Params_panic_iff_reaches_nil. Qed.
-Print Assumptions C20_Params_panics_only_on_nil_dec.
+(* the former witnesses are now rejected with the error text the repairs introduced *)
+Theorem C20_repaired_inputs_rejected :
+  v_Params params_absent_slash = VErr "slash fraction cannot be empty" /\
+  v_Params params_absent_power_change = VErr "oracle set update power change percent cannot be empty" /\
+  v_MsgBridgeCall bridge_call_absent_value = VErr "value must be zero" /\
+  v_MsgBridgeCall bridge_call_absent_coin_amount = VErr "nil coin amount" /\
+  h_MsgConfirm_entry {| mw_confirm := AnyNil |} = VErr "empty confirm".
+Proof. exact repaired_inputs_rejected. Qed.
+Print Assumptions C20_repaired_inputs_rejected.
 
-(* MsgBridgeCall: absent value, or a coin with an absent amount *)
-Theorem C20_validate_total_MsgBridgeCall_refuted :
-  v_MsgBridgeCall bridge_call_absent_value = VPanic /\ v_MsgBridgeCall bridge_call_absent_coin_amount = VPanic.
-Proof. exact bridge_call_refuted. Qed.
-Print Assumptions C20_validate_total_MsgBridgeCall_refuted.
-
-Theorem C20_MsgBridgeCall_panics_only_on_nil : forall m, v_MsgBridgeCall m = VPanic ->
-  int_isnil (mb_value m) = true \/ coins_nil_amount (mb_coins m) = true.
-Proof. exact v_MsgBridgeCall_panic. Qed.
-Print Assumptions C20_MsgBridgeCall_panics_only_on_nil.
-
-(* MsgConfirm has no ValidateBasic; its handler dereferences an absent Any *)
-Theorem C20_MsgConfirm_refuted : h_MsgConfirm_entry {| mw_confirm := AnyNil |} = VPanic.
-Proof. exact confirm_refuted. Qed.
-Print Assumptions C20_MsgConfirm_refuted.
-
-(* every recorded panic class is inhabited: none of the guards above hides a vacuous statement *)
-Theorem C20_known_panics_are_real :
-  validate (I_Params params_absent_slash) = VPanic /\
-  validate (I_MsgUpdateParams {| up_authority := BGood 1; up_chain := ChTron; up_params := params_absent_power_change |}) = VPanic /\
-  validate (I_MsgBridgeCall bridge_call_absent_value) = VPanic /\
-  validate (I_MsgBridgeCall bridge_call_absent_coin_amount) = VPanic /\
-  validate (I_MsgConfirm {| mw_confirm := AnyNil |}) = VPanic.
-Proof. exact known_panics_are_panics. Qed.
-Print Assumptions C20_known_panics_are_real.
-
-(* the two remaining classes excluded by known_panic_input panic in the transcribed Go functions but cannot be produced by
+(* the only inputs excluded by `decodable`: they make the transcribed Go functions panic but cannot be produced by
    the decoders in front of them (abi.Unpack always allocates a uint256; the IBC memo is JSON and an absent "value"
    becomes a fresh zero Int): the harness checks both facts on the real decoders *)
 Theorem C20_decoder_excluded_classes :
@@ -63,6 +43,43 @@ Theorem C20_decoder_excluded_classes :
   validate (I_IbcCallEvmPacket {| ic_to := XEth; ic_value := INil; ic_data := HGood |}) = VPanic.
 Proof. exact decoder_excluded_classes. Qed.
 Print Assumptions C20_decoder_excluded_classes.
+
+(* HISTORICAL (pre-fix variants in model/M_ValidateHist.v, NOT the current tree): the validators as they were before the
+   repairs panic on the recorded witnesses — findings C20-1, C20-2, C20-3, C20-6 — and the current ones do not *)
+Theorem C20_prefix_Params_refuted :
+  (v_Params_pre params_absent_slash = VPanic /\ v_Params_pre params_absent_power_change = VPanic) /\
+  (v_Params params_absent_slash <> VPanic /\ v_Params params_absent_power_change <> VPanic).
+Proof. exact prefix_params_refuted. Qed.
+Print Assumptions C20_prefix_Params_refuted.
+
+Theorem C20_prefix_MsgBridgeCall_refuted :
+  (v_MsgBridgeCall_pre bridge_call_absent_value = VPanic /\ v_MsgBridgeCall_pre bridge_call_absent_coin_amount = VPanic) /\
+  (v_MsgBridgeCall bridge_call_absent_value <> VPanic /\ v_MsgBridgeCall bridge_call_absent_coin_amount <> VPanic).
+Proof. exact prefix_bridge_call_refuted. Qed.
+Print Assumptions C20_prefix_MsgBridgeCall_refuted.
+
+Theorem C20_prefix_MsgConfirm_refuted :
+  h_MsgConfirm_entry_pre {| mw_confirm := AnyNil |} = VPanic /\ h_MsgConfirm_entry {| mw_confirm := AnyNil |} = VErr "empty confirm".
+Proof. exact prefix_confirm_refuted. Qed.
+Print Assumptions C20_prefix_MsgConfirm_refuted.
+
+Theorem C20_prefix_BridgeCallClaim_amounts_refuted :
+  (v_MsgBridgeCallClaim_pre claim_negative_amount = VOk /\ all_def (must_BridgeCallClaim_amounts claim_negative_amount) = false) /\
+  (v_MsgBridgeCallClaim_pre claim_absent_amount = VOk /\ all_def (must_BridgeCallClaim_amounts claim_absent_amount) = false) /\
+  (v_MsgBridgeCallClaim claim_negative_amount = VErr "invalid amount" /\ v_MsgBridgeCallClaim claim_absent_amount = VErr "invalid amount").
+Proof. exact prefix_claim_amounts_refuted. Qed.
+Print Assumptions C20_prefix_BridgeCallClaim_amounts_refuted.
+
+Theorem C20_prefix_ante_refuted :
+  (v_PubKeyDecorator_pre 2 1 = VPanic /\ v_MultisigGas_pre 1 3 1 0 = VPanic) /\
+  (v_PubKeyDecorator 2 1 = VErr "invalid number of signer infos" /\ v_MultisigGas 1 3 1 0 = VErr "multisig bit array does not match").
+Proof. exact prefix_ante_refuted. Qed.
+Print Assumptions C20_prefix_ante_refuted.
+
+(* the two fx-core ante functions repaired for C20-4/5: total for every count of signer infos / bits / keys / signatures *)
+Theorem C20_ante_fx_total : (forall np ns, v_PubKeyDecorator np ns <> VPanic) /\ (forall sz nk nt ns, v_MultisigGas sz nk nt ns <> VPanic).
+Proof. split; [intros np ns; exact (validate_total (I_PubKeyDecorator np ns) eq_refl) | intros sz nk nt ns; exact (validate_total (I_MultisigGas sz nk nt ns) eq_refl)]. Qed.
+Print Assumptions C20_ante_fx_total.
 
 (* precompile argument validation never panics on anything go-ethereum's abi decoder can produce *)
 Theorem C20_precompile_args_total :
@@ -87,17 +104,10 @@ Theorem C20_must_safe_BridgeCallClaim_addresses : forall m, v_MsgBridgeCallClaim
 Proof. exact must_safe_claim_addr. Qed.
 Print Assumptions C20_must_safe_BridgeCallClaim_addresses.
 
-(* ... but NOT for the amounts: ValidateBasic accepts absent and negative amounts, sdk.NewCoin in the handler panics on them *)
-Theorem C20_must_safe_BridgeCallClaim_amounts_refuted :
-  (v_MsgBridgeCallClaim claim_negative_amount = VOk /\ all_def (must_BridgeCallClaim_amounts claim_negative_amount) = false) /\
-  (v_MsgBridgeCallClaim claim_absent_amount = VOk /\ all_def (must_BridgeCallClaim_amounts claim_absent_amount) = false).
-Proof. exact must_claim_amounts_refuted. Qed.
-Print Assumptions C20_must_safe_BridgeCallClaim_amounts_refuted.
-
-Theorem C20_must_safe_BridgeCallClaim_amounts_guarded : forall m,
-  (forall a, In a (bc_amounts m) -> a = IZero \/ a = IPos) -> all_def (must_BridgeCallClaim_amounts m) = true.
-Proof. exact must_claim_amounts_guarded. Qed.
-Print Assumptions C20_must_safe_BridgeCallClaim_amounts_guarded.
+(* ... and, since edafc05, for the amounts as well: sdk.NewCoin(bridgeDenom, msg.Amounts[i]) is defined for every token *)
+Theorem C20_must_safe_BridgeCallClaim_amounts : forall m, v_MsgBridgeCallClaim m = VOk -> all_def (must_BridgeCallClaim_amounts m) = true.
+Proof. exact must_safe_claim_amounts. Qed.
+Print Assumptions C20_must_safe_BridgeCallClaim_amounts.
 
 Theorem C20_must_safe_MsgUpdateStore : forall m, v_MsgUpdateStore m = VOk ->
   forall s, In s (us_stores m) -> all_def (must_UpdateStore s) = true.
@@ -132,6 +142,7 @@ Theorem C20_validate_nonvacuous :
   v_MsgClaim {| mc_chain := ChTron; mc_claim := AnyIs (ClBridgeCall ok_claim) |} = VOk /\
   all_def (must_BridgeCallClaim_addr ok_claim) = true /\ all_def (must_BridgeCallClaim_amounts ok_claim) = true /\
   h_MsgConfirm_entry {| mw_confirm := AnyOther |} = VErr "invalid claim" /\
+  h_MsgConfirm_entry {| mw_confirm := AnyNil |} = VErr "empty confirm" /\
   v_crosschain_args (CA_BridgeCall true BgZero 2 2 false) = VOk /\
   v_MsgSendToExternal {| se_chain := ChEth; se_sender := BGood 1; se_dest := XTron; se_amount := {| cd_ok := true; cd_id := 0; c_amt := IPos |}; se_fee := {| cd_ok := true; cd_id := 0; c_amt := IPos |} |} = VErr "invalid dest address".
 Proof. exact validate_nonvacuous. Qed.
